@@ -18,6 +18,9 @@ RULE = (
     "after the computation ends (value or exception) every scoped value and attribute is back at its default. "
     "distinct = program hash; non-trivial = at least one read under >= 1 override and at least 1 flush."
 )
+RULE += (
+    " One program in ten is an 'overlap' program (see C01); one in ten a 'revisit' program."
+)
 ASSUMPTIONS = ["runaway-recursion aborts are outside this property's quantifier (see C08)"]
 UNIT_TIMEOUT = {"quick": 150, "thorough": 2400}
 
